@@ -4,6 +4,7 @@ import (
 	"bufio"
 	"encoding/json"
 	"flag"
+	"fmt"
 	"os"
 
 	"vh/abs"
@@ -68,4 +69,97 @@ func cmdAPICases(args []string) error {
 		}
 	}
 	return sc.Err()
+}
+
+func init() {
+	register("api-random", "random calls of the client's model API on a synchronised client over a schema, the database evolving (TraceApi.tla)", cmdAPIRandom)
+}
+
+func cmdAPIRandom(args []string) error {
+	fs := flag.NewFlagSet("api-random", flag.ExitOnError)
+	schema := fs.String("schema", "kitchen", "small|kitchen|random|api")
+	schemaSeed := fs.Int64("schema-seed", 1, "seed of a random schema")
+	seed := fs.Int64("seed", 1, "seed of the calls")
+	n := fs.Int("n", 100, "number of calls")
+	episode := fs.Int("episode", 40, "calls per database (then the database is emptied)")
+	out := fs.String("o", "trace.ndjson", "output trace")
+	replay := fs.String("replay", "", "a file {db, call}: load the database, make the one call")
+	_ = fs.Parse(args)
+	s, err := abs.NamedSchema(*schema, *schemaSeed)
+	if err != nil {
+		return err
+	}
+	f, err := os.Create(*out)
+	if err != nil {
+		return err
+	}
+	defer f.Close()
+	w := bufio.NewWriter(f)
+	defer w.Flush()
+	rec := rectxn.NewRecorder(w)
+	dir, err := os.MkdirTemp("", "vh-sock")
+	if err != nil {
+		return err
+	}
+	defer os.RemoveAll(dir)
+	a, err := recsess.NewAPIRunner(dir, s)
+	if err != nil {
+		return err
+	}
+	defer a.Close()
+	if *replay != "" {
+		b, err := os.ReadFile(*replay)
+		if err != nil {
+			return err
+		}
+		var c struct {
+			DB   map[string]recsess.RowsJ `json:"db"`
+			Call recsess.APICall          `json:"call"`
+		}
+		if err := json.Unmarshal(b, &c); err != nil {
+			return err
+		}
+		var raw struct {
+			Call interface{} `json:"call"`
+		}
+		if err := json.Unmarshal(b, &raw); err != nil {
+			return err
+		}
+		if err := a.Load(rec, c.DB); err != nil {
+			return err
+		}
+		return a.Run(rec, c.Call, raw.Call)
+	}
+	p := abs.DefaultProfile()
+	g := abs.NewGen(s, *seed, p)
+	for i := 0; i < *n; i++ {
+		if i%*episode == 0 {
+			if err := a.Load(rec, map[string]recsess.RowsJ{}); err != nil {
+				return err
+			}
+			g.SetState(map[string]interface{}{})
+		}
+		ca := g.APICall()
+		b, err := json.Marshal(ca)
+		if err != nil {
+			return err
+		}
+		var call recsess.APICall
+		if err := json.Unmarshal(b, &call); err != nil {
+			return err
+		}
+		var raw interface{}
+		if err := json.Unmarshal(b, &raw); err != nil {
+			return err
+		}
+		if err := a.Run(rec, call, raw); err != nil {
+			return fmt.Errorf("call %d (%s): %v", i, string(b), err)
+		}
+		dump, _, err := a.In.Observe()
+		if err != nil {
+			return err
+		}
+		g.SetState(dump)
+	}
+	return nil
 }
